@@ -108,5 +108,22 @@ CORPUS = {
     "range-len-with-append-in-body": S("xs = [1, 2, 3]\nn = 0\nfor i in range(len(xs)):\n    xs.append(i)\n    n = n + 1\nmon.write(n)\n"),
     # ---- sleeps
     "sleep-expression": S("d = 10\nwhile True:\n    sleep(d)\n    sleep(d * 2)\n    mon.write(d)\n    d = d + 5\n"),
+    # ---- round-6 shapes
+    "comprehension-over-negative-step-range": S("xs = [i * 2 for i in range(10, 0, -3)]\nmon.write(len(xs))\nmon.write(xs[3])\nn = 7\nys = [j for j in range(n, 0, -2)]\nmon.write(len(ys))\nmon.write(ys[3])\n"),
+    "augmented-assignment-conditional-rhs": S("total = 5\nn = 3\nc = 0\ntotal += n if c > 0 else 0\nmon.write(total)\nc = 1\ntotal += n if c > 0 else 0\nmon.write(total)\ntotal -= (n if c > 5 else 1)\nmon.write(total)\n"),
+    "augmented-assignment-comparison-rhs": S("hits = 4\na = 1\nb = 9\nhits += a > b\nmon.write(hits)\nhits += b > a\nmon.write(hits)\nhits *= 1 + (a < b)\nmon.write(hits)\n"),
+    "augmented-assignment-conditional-in-loop-and-helper": S("def bump(t, i):\n    t += i if i > 1 else 0\n    return t\nt = 0\nwhile True:\n    for i in range(4):\n        t += i if i > 1 else 0\n    mon.write(t)\n    mon.write(bump(t, 1))\n    sleep(5)\n"),
+    "arithmetic-on-two-comparison-results": S("a = 3\nb = 5\nf = a < b\ng = b > 1\nn = f + g\nm = f + g + g\nd = f - g - g\nmon.write(n)\nmon.write(m)\nmon.write(d)\ndef both(p, q):\n    return (p > 0) + (q > 0)\nmon.write(both(1, 2) * 10 + 3)\n"),
+    "restore-to-entry-constant-then-change-later-in-pass": S("v = 1\nwhile True:\n    v = 1\n    sleep(v)\n    mon.write(v)\n    v = 7\n    mon.write(v)\n"),
+    "restore-constant-before-branch": S("v = 2\nc = 1\nwhile True:\n    if c > 0:\n        v = 9\n    mon.write(v)\n    v = 2\n    mon.write(v)\n    c = 1 - c\n    sleep(5)\n"),
+    "first-binding-at-top-of-main-loop": S("while True:\n    x = 0\n    x = x + 6\n    mon.write(x)\n    lo, hi = 2, 5\n    lo = lo + hi\n    mon.write(lo)\n    sleep(5)\n"),
+    "return-written-tight": S("def clamp(v):\n    if v > 10:\n        return(10)\n    return(v)\ndef neg(v):\n    return-v\nmon.write(clamp(20))\nmon.write(clamp(3))\nmon.write(neg(4))\n"),
+    "keywords-tight-against-parenthesis": S("def f(a, b):\n    if(a > b):\n        return(a)\n    elif(a == b):\n        return(0)\n    return(b)\nx = 0\nwhile(x < 3):\n    x = x + 1\nmon.write(f(1, 2))\nmon.write(f(5, 2))\nmon.write(x)\nwhile(True):\n    x = x + 1\n    if(x > 4):\n        mon.write(x)\n    sleep(5)\n"),
+    "list-append-and-remove-of-literals": S("names = ['a', 'b']\nnames.append('c')\nmon.write(names[2])\nnames.remove('a')\nmon.write(names[0])\nws = [0.5, 1.5]\nws.append(2.5)\nws.append(2)\nmon.write(ws[2])\nmon.write(ws[3] + 0.5)\n"
+                                            "k = 3\nnames.append(f'n{k}')\nmon.write(len(names))\nfs = [True, False]\nfs.append(True)\nmon.write(len(fs))\n"),
+    "string-overload-called-from-earlier-helper": S("def report(n):\n    show(n)\n    show('ticks')\ndef show(x):\n    mon.write(x)\nreport(3)\n"),
+    "string-overload-first-called-from-earlier-helper": S("def report(n):\n    show('ticks')\n    show(n)\ndef show(x):\n    mon.write(x)\nreport(3)\n"),
+    "escaped-quote-then-hash-inside-literal": S("banner = \"screen 7\\\" #2 ready\"\nmon.write(banner)\nnote = 'it\\'s unit #2'\nmon.write(note)\nmon.write(len(banner))\n"),
+    "main-loop-header-with-trailing-comment": S("k = 0\nwhile True:  # main loop\n    k = k + 1\n    mon.write(k)\n    sleep(5)\n"),
     "sleep-in-branches": S("k = 0\nwhile True:\n    if k % 2 == 0:\n        sleep(100)\n    else:\n        sleep(250)\n    k = k + 1\n    mon.write(k)\n"),
 }
